@@ -37,6 +37,7 @@ func runC18(c *Ctx) {
 	}
 	cs := NewClientSim(c, connType)
 	cs.S.PreemptDen = uint32(pickFrom(t, 0, 2, 3, 4, 8, 16))
+	maybeStalls(c, cs.S)
 	reqTimeout := time.Duration(pickFrom(t, 2, 4)) * time.Second
 	msgTimeout := time.Duration(pickFrom(t, 2, 4, 8)) * time.Second
 	hsTimeout := time.Duration(pickFrom(t, 3, 6)) * time.Second
@@ -94,6 +95,23 @@ func runC18(c *Ctx) {
 		sc.Send(&client.Tx{ID: cs.RC.NextMessageID(), Tx: tx, Outputs: []*wire.TxOut{wire.NewTxOut(1, []byte{0x51})}})
 		sc.Send(&client.InSync{})
 	}
+	// a service that cannot (or will not) produce a valid accept may also send its data first
+	dataFirst := t.Bool(1, 3)
+	cs.Svc.BeforeAccept = func(sc *SvcConn, mode string) {
+		if !dataFirst || mode == "valid" || mode == "reject" || sc.Dead {
+			return
+		}
+		c.FaultFired("F-peer-byz")
+		c.Probe("data_before_accept")
+		forgedTx[-1] = true // marker: data was sent ahead of an accept
+		forgedTx[sc.ID] = true
+		tx := w.NewTx([]wire.OutPoint{w.Fund(78)}, subKey, 1, 5000+sc.ID)
+		sc.Send(&client.Tx{ID: cs.RC.NextMessageID(), Tx: tx, Outputs: []*wire.TxOut{wire.NewTxOut(1, []byte{0x51})}})
+		sc.Send(&client.InSync{})
+		if t.Bool(1, 2) {
+			simrt.Sleep(time.Duration(1+t.Choose(60)) * time.Millisecond)
+		}
+	}
 	ncalls := 2 + int(t.Choose(6))
 	var calls []*c18call
 	for i := 0; i < ncalls; i++ {
@@ -127,16 +145,18 @@ func runC18(c *Ctx) {
 	done := false
 	simrt.Go("driver", func() {
 		defer func() { done = true }()
-		cs.Start()
-		cs.H1.ReadyMode = "next"
-		if connType != client.ConnectionTypeFull {
-			cs.H1.ReadyMode = "none" // control connections have no ready step
-		}
-		cs.H1.OnAccept = func() {
-			if readyDelay > 0 {
-				simrt.Sleep(readyDelay)
+		simrt.NoPreempt(func() { // the application is configured before the client runs
+			cs.Start()
+			cs.H1.ReadyMode = "next"
+			if connType != client.ConnectionTypeFull {
+				cs.H1.ReadyMode = "none" // control connections have no ready step
 			}
-		}
+			cs.H1.OnAccept = func() {
+				if readyDelay > 0 {
+					simrt.Sleep(readyDelay)
+				}
+			}
+		})
 		started := cs.S.Now()
 		// forged accepts are followed by data
 		simrt.GoDaemon("forged-streamer", func() {
@@ -276,7 +296,12 @@ func c18evaluate(c *Ctx, cs *ClientSim, plan []string, calls []*c18call, forgedT
 			case "accept":
 				accepts++
 			case "tx", "update", "insync", "headers":
-				c.Violate("forged-accept", "data-delivered/"+lastForgedMode, "a %s notification reached handler %s; only connections with a forged accept (%d of them, last forged as %s) ever sent data", cb.Kind, rec.Name, forgedConns, lastForgedMode)
+				key := "data-delivered/" + lastForgedMode
+				dataFirstFired := forgedTx[-1]
+				if dataFirstFired {
+					key = "data-delivered/sent-before-accept"
+				}
+				c.Violate("forged-accept", key, "a %s notification reached handler %s; only connections without a valid accept (%d forged, last forged as %q; data ahead of the accept: %v) ever sent data", cb.Kind, rec.Name, forgedConns, lastForgedMode, dataFirstFired)
 			}
 		}
 		if accepts > validAccepts {
